@@ -582,6 +582,10 @@ class PeerConnection:
                             f"received garbage: {e}, discarding {msg_header.length} "
                             f"bytes")
                         self._read_buffer = self._read_buffer[msg_header.length:]
+                        # same rule as below: not enough bytes left for a
+                        # message header is not garbage, wait for more
+                        if 0 < len(self._read_buffer) < 20:
+                            resume_waiting = True
                         continue
                     else:
                         self.logger.warning(
